@@ -2,8 +2,12 @@ package main
 
 import (
 	"bytes"
+	"context"
 	"fmt"
+	"os"
+	"os/exec"
 	"path/filepath"
+	"strings"
 	"time"
 
 	"github.com/protobom/protobom/pkg/formats"
@@ -62,7 +66,7 @@ func serializeOnce(d *sbom.Document, f formats.Format) serOutcome {
 func runC07(seed int64, n int, dir string, tier string) *Report {
 	g := gen.New(seed)
 	rep := NewReport("C07", seed)
-	rep.Rule = "n arbitrary Document values (absent metadata or node list, nil list elements, unknown enum numbers, empty/duplicate identifiers, dangling edges, cycles, no or many roots, document types with absent parts) x 7 registered formats; each serialized, serialized again, and serialized once more after serializing other documents; outputs compared as canonical JSON (timestamps blanked, arrays sorted); non-trivial = document with at least 2 nodes; distinct by hash"
+	rep.Rule = "n arbitrary Document values (absent metadata or node list, nil list elements, unknown enum numbers, empty/duplicate identifiers, dangling edges, cycles, no or many roots, document types with absent parts) x 7 registered formats; each serialized, serialized again, and serialized once more after serializing other documents; outputs compared as canonical JSON (timestamps blanked, arrays sorted); plus documents with containment and dependency cycles of eight shapes serialized in a child process (runaway recursion ends a process); non-trivial = document with at least 2 nodes; distinct by hash"
 	cf, xs, xc := newXlateCases()
 	coqfmt.DropNil = true
 	defer func() { coqfmt.DropNil = false }()
@@ -110,9 +114,109 @@ func runC07(seed int64, n int, dir string, tier string) *Report {
 		}
 		rep.NoteCase(fmt.Sprint(i, gen.Describe(d)), d.NodeList != nil && len(d.NodeList.Nodes) >= 2, map[string]any{"document": gen.Describe(d)})
 	}
+	// ---- cycles: documents a serializer accepts (one root, closed edges) whose containment or
+	// dependency edges form cycles of every kind; serialized in a child process, because runaway
+	// recursion ends the process instead of panicking
+	exe, _ := os.Executable()
+	child := filepath.Join(filepath.Dir(exe), "serchild")
+	if _, err := os.Stat(child); err != nil {
+		rep.Notes = append(rep.Notes, "serchild not built: cycle documents skipped")
+	} else {
+		tmp, _ := os.MkdirTemp("", "verif-c07-")
+		defer os.RemoveAll(tmp)
+		for i := 0; i < n/3+8; i++ {
+			d := cyclicDocument(g, i)
+			raw, _ := proto.Marshal(d)
+			f := filepath.Join(tmp, fmt.Sprintf("d%d.pb", i))
+			_ = os.WriteFile(f, raw, 0o644)
+			survived := true
+			for _, fm := range []formats.Format{formats.CDX15JSON, formats.CDX13JSON, formats.SPDX23JSON} {
+				ctx, cancel := context.WithTimeout(context.Background(), 20*time.Second)
+				cmd := exec.CommandContext(ctx, child, f, string(fm))
+				var so, se bytes.Buffer
+				cmd.Stdout, cmd.Stderr = &so, &se
+				err := cmd.Run()
+				cancel()
+				rep.OracleEvals++
+				out := strings.TrimSpace(so.String())
+				kind := strings.SplitN(out+" ", " ", 2)[0]
+				rep.Count("cycle-doc:" + shortFmt(fm) + ":" + kind)
+				in := map[string]any{"format": string(fm), "document": docJSON(d), "shape": cycleShapes[i%len(cycleShapes)]}
+				if err != nil || (kind != "ok" && kind != "err") {
+					msg := se.String()
+					if len(msg) > 600 {
+						msg = msg[:600]
+					}
+					rep.Fail(Failure{What: "a registered serializer panicked, hung or terminated the process on a document with cyclic edges", Detail: fmt.Sprintf("%v %s %s", err, out, msg), Input: in})
+					survived = false
+				}
+			}
+			if survived {
+				// the model's nesting on the same cycles (in-process only once the child has survived)
+				spdxSeams(rep, xs, g, d, "cycle")
+				cdxSeams(rep, xc, d, "cycle", "1.5")
+			}
+		}
+	}
 	rep.CasesFiles = cf.Write(filepath.Join(dir, "cases_C07"))
 	rep.ShardSize = shardSize
 	return rep
+}
+
+var cycleShapes = []string{"two-cycle among non-root nodes", "three-cycle among non-root nodes", "self loop", "cycle through the root", "cycle entered from the root's child", "cycle not reachable from the root", "dependency cycle", "two disjoint cycles"}
+
+// cyclicDocument: one root r, nodes a..e, every edge endpoint a node; shape i of cycleShapes.
+func cyclicDocument(g *gen.G, i int) *sbom.Document {
+	d := sbom.NewDocument()
+	d.Metadata.Id, d.Metadata.Name = "urn:uuid:cycle", "cycle"
+	for _, id := range []string{"r", "a", "b", "c", "d", "e"} {
+		d.NodeList.Nodes = append(d.NodeList.Nodes, &sbom.Node{Id: id, Name: id, PrimaryPurpose: []sbom.Purpose{sbom.Purpose_LIBRARY}})
+	}
+	d.NodeList.RootElements = []string{"r"}
+	ce := func(t sbom.Edge_Type, from string, to ...string) {
+		d.NodeList.Edges = append(d.NodeList.Edges, &sbom.Edge{Type: t, From: from, To: to})
+	}
+	c := sbom.Edge_contains
+	switch i % len(cycleShapes) {
+	case 0:
+		ce(c, "a", "b")
+		ce(c, "b", "a")
+	case 1:
+		ce(c, "a", "b")
+		ce(c, "b", "c")
+		ce(c, "c", "a")
+	case 2:
+		ce(c, "a", "a")
+		ce(c, "r", "a")
+	case 3:
+		ce(c, "r", "a")
+		ce(c, "a", "r")
+	case 4:
+		ce(c, "r", "a")
+		ce(c, "a", "b")
+		ce(c, "b", "c")
+		ce(c, "c", "b")
+	case 5:
+		ce(c, "r", "e")
+		ce(c, "c", "d")
+		ce(c, "d", "c")
+	case 6:
+		ce(sbom.Edge_dependsOn, "a", "b")
+		ce(sbom.Edge_dependsOn, "b", "a")
+		ce(c, "r", "a", "b")
+	default:
+		ce(c, "a", "b")
+		ce(c, "b", "a")
+		ce(c, "c", "d")
+		ce(c, "d", "e")
+		ce(c, "e", "c")
+	}
+	// stored order and extra edges vary
+	g.R.Shuffle(len(d.NodeList.Edges), func(x, y int) { d.NodeList.Edges[x], d.NodeList.Edges[y] = d.NodeList.Edges[y], d.NodeList.Edges[x] })
+	if g.Chance(0.4) {
+		ce(c, "r", gen.Pick(g, []string{"a", "b", "c", "d", "e"}))
+	}
+	return d
 }
 
 func shortFmt(f formats.Format) string {
